@@ -54,6 +54,7 @@ type SPet struct {
 	ID        int64 `gorm:"primaryKey"`
 	OwnerID   int64
 	V         int64
+	Owner     *Owner `gorm:"foreignKey:OwnerID"` // the way back: lets a query on pets join the owner and preload below it
 	DeletedAt gorm.DeletedAt
 }
 
@@ -612,7 +613,8 @@ func loadAssoc(r *core.Rand) assocData {
 }
 
 var assocPaths = []string{"PreloadItems", "PreloadItemsCond", "PreloadNested", "PreloadAll", "PreloadPet", "PreloadTags", "JoinsBoss", "InnerJoinsBoss", "JoinsPet",
-	"AssocFindItems", "AssocCountItems", "AssocFindTags", "AssocCountTags", "AssocFindPet", "PreloadUnscoped", "UnscopedJoinsBoss", "UnscopedInnerJoinsBoss", "UnscopedJoinsPet", "JoinsPetCond", "JoinsBossCond"}
+	"AssocFindItems", "AssocCountItems", "AssocFindTags", "AssocCountTags", "AssocFindPet", "PreloadUnscoped", "UnscopedJoinsBoss", "UnscopedInnerJoinsBoss", "UnscopedJoinsPet", "JoinsPetCond", "JoinsBossCond",
+	"JoinsPreloadBelow", "UnscopedJoinsPreloadBelow", "UnscopedPreloadNestedBelow"}
 
 func itemIDs(xs []SItem) []int64 {
 	out := make([]int64, len(xs))
@@ -627,6 +629,72 @@ func tagIDs(xs []STag) []int64 {
 		out[i] = x.ID
 	}
 	return pred.SortIDs(out)
+}
+
+// runAssocDelete: Select(<relation>).Delete(&owner) deletes the owner's rows of that relation the way Delete does:
+// marks the live ones and leaves marked ones as they are, or with Unscoped removes all of them physically.
+func runAssocDelete(c *core.Ctx, path string, d assocData) (problems []string) {
+	add := func(f string, a ...interface{}) { problems = append(problems, fmt.Sprintf(f, a...)) }
+	root := H.DB.Session(&gorm.Session{})
+	count := func(q string, a ...interface{}) int64 { return vdb.Ints(H.SQL, q, a...)[0] }
+	const o = int64(1)
+	itemsAll := count("SELECT count(*) FROM s_items WHERE owner_id = ?", o)
+	itemsOther := count("SELECT count(*) FROM s_items WHERE owner_id <> ?", o)
+	petsAll := count("SELECT count(*) FROM s_pets WHERE owner_id = ?", o)
+	petsOther := count("SELECT count(*) FROM s_pets WHERE owner_id <> ?", o)
+	db := root
+	unscoped := strings.HasPrefix(path, "Unscoped")
+	if unscoped {
+		db = db.Unscoped()
+	}
+	var sel []string
+	switch strings.TrimPrefix(strings.TrimPrefix(path, "Unscoped"), "DeleteSelect") {
+	case "Items":
+		sel = []string{"Items"}
+	case "Pet":
+		sel = []string{"Pet"}
+	default:
+		sel = []string{"Items", "Pet"}
+	}
+	args := make([]interface{}, len(sel)-1)
+	for i, x := range sel[1:] {
+		args[i] = x
+	}
+	if err := db.Select(sel[0], args...).Delete(&Owner{ID: o}).Error; err != nil {
+		add("error: %v", err)
+		return
+	}
+	if n := count("SELECT count(*) FROM owners WHERE id = ?", o); n != 0 {
+		add("the owner row is still there")
+	}
+	for _, rel := range sel {
+		table, all, other := "s_items", itemsAll, itemsOther
+		if rel == "Pet" {
+			table, all, other = "s_pets", petsAll, petsOther
+		}
+		left := count("SELECT count(*) FROM "+table+" WHERE owner_id = ?", o)
+		live := count("SELECT count(*) FROM "+table+" WHERE owner_id = ? AND deleted_at IS NULL", o)
+		old := count("SELECT count(*) FROM "+table+" WHERE owner_id = ? AND deleted_at = ?", o, delTime)
+		if unscoped {
+			if left != 0 {
+				add("Unscoped delete with Select(%s): %d of the owner's %d rows in %s are still stored (%d of them live)", rel, left, all, table, live)
+			}
+		} else {
+			if left != all {
+				add("delete with Select(%s) removed rows of %s physically: %d of %d left", rel, table, left, all)
+			}
+			if live != 0 {
+				add("delete with Select(%s): %d rows of %s are still live", rel, live, table)
+			}
+			if old*2 != all && table == "s_items" {
+				add("delete with Select(%s): rows of %s that were marked before were marked again (%d of %d keep their old mark)", rel, table, old, all/2)
+			}
+		}
+		if n := count("SELECT count(*) FROM "+table+" WHERE owner_id <> ?", o); n != other {
+			add("rows of other owners in %s changed: %d -> %d", table, other, n)
+		}
+	}
+	return
 }
 
 func runAssoc(c *core.Ctx, path string, d assocData) (problems []string) {
@@ -783,6 +851,45 @@ func runAssoc(c *core.Ctx, path string, d assocData) (problems []string) {
 			if has := vdb.Ints(H.SQL, "SELECT count(*) FROM s_pets WHERE owner_id = ?", o.ID)[0]; has > 0 && o.Pet == nil {
 				add("Unscoped: owner %d has %d pet rows but none was joined", o.ID, has)
 			}
+		}
+	case "JoinsPreloadBelow", "UnscopedJoinsPreloadBelow", "UnscopedPreloadNestedBelow":
+		// a relation loaded by Joins with a Preload below it (and the same path as two preloads): the scope, or its
+		// lifting by Unscoped, reaches the nested level too
+		var pets []SPet
+		db := root
+		if path != "JoinsPreloadBelow" {
+			db = db.Unscoped()
+		}
+		if path == "UnscopedPreloadNestedBelow" {
+			db = db.Preload("Owner.Items")
+		} else {
+			db = db.Joins("Owner").Preload("Owner.Items")
+		}
+		if err := db.Order("s_pets.id").Find(&pets).Error; err != nil {
+			add("error: %v", err)
+			return
+		}
+		wantPets := vdb.Ints(H.SQL, "SELECT id FROM s_pets WHERE deleted_at IS NULL ORDER BY id")
+		if path != "JoinsPreloadBelow" {
+			wantPets = vdb.Ints(H.SQL, "SELECT id FROM s_pets ORDER BY id")
+		}
+		var gotPets []int64
+		for _, p := range pets {
+			gotPets = append(gotPets, p.ID)
+			if p.Owner == nil {
+				add("pet %d: owner not loaded", p.ID)
+				continue
+			}
+			want := append([]int64(nil), d.liveItems[p.OwnerID]...)
+			if path != "JoinsPreloadBelow" {
+				for _, id := range d.liveItems[p.OwnerID] {
+					want = append(want, id+twinOff)
+				}
+			}
+			eq("Owner.Items of pet "+fmt.Sprint(p.ID), p.OwnerID, itemIDs(p.Owner.Items), want)
+		}
+		if !pred.IDsEqual(pred.SortIDs(gotPets), wantPets) {
+			add("pets loaded %v, want %v", gotPets, wantPets)
 		}
 	case "JoinsPetCond", "JoinsBossCond":
 		// association join with the caller's own ON conditions given as a handle: every unit is true for
@@ -986,6 +1093,19 @@ func run(c *core.Ctx) {
 		}
 		if nlive > 0 {
 			c.Shape("assoc", p, d.owners, nlive, len(d.liveTags), len(d.livePet))
+		}
+	}
+	// deleting an owner together with selected relations (last: it consumes the graph)
+	if r.Bool() {
+		p := core.Pick(r, []string{"DeleteSelectItems", "UnscopedDeleteSelectItems", "UnscopedDeleteSelectPet", "DeleteSelectPet", "UnscopedDeleteSelectBoth"})
+		c.Logf("ASSOC %s", p)
+		problems := runAssocDelete(c, p, d)
+		c.Inc("assoc_paths")
+		c.Inc("path_" + p)
+		if len(problems) > 0 {
+			c.Violation(p, map[string]interface{}{"path": p, "problems": problems, "graph": fmt.Sprintf("%+v", d)})
+		} else {
+			c.Shape("assoc", p, d.owners, len(d.liveItems[1]), d.livePet[1] != 0)
 		}
 	}
 }
